@@ -91,7 +91,13 @@ def judge_a(case):
     ev = None
     if case["via"] == "dsl":
         prog = M.program("e", M.ret([(M.lit_of(l), w) for l, w in zip(labels, ws)]), splitters=["uid"])
-        res = sut.compile_text(M.render(prog))
+        import warnings
+
+        with warnings.catch_warnings():
+            # a host that runs with warnings as errors (python -W error, pytest -W error): a legal weight vector (zeros
+            # anywhere, huge next to tiny) is no reason for a warning, so it must compile there as well
+            warnings.simplefilter("error")
+            res = sut.compile_text(M.render(prog))
         if res[0] != "ok":
             return {"viol": ["does not compile: %s %s | %s" % (res[1], res[2], M.render(prog))], "tags": tags}
         ev = res[1]
@@ -386,7 +392,11 @@ def edge_magnitude_vectors():
                ["100", "1.0", "10.50"], ["4294967296", "1"], ["8589934592", "8589934592"], ["3.0", "2.00", "105.0"],
                # uneven shares written with the smallest expressible weights only (all within 1e-8 of each other in absolute terms)
                ["0.000000001", "0.000000002"], ["0.000000001", "0.000000009"], ["0.000000003", "0.000000001", "0.000000002"],
-               ["0.000000009", "0.000000001", "0", "0.000000005"], ["0.00000001", "0.00000003"], ["0.0000001", "0.0000001", "0.0000002"]):
+               ["0.000000009", "0.000000001", "0", "0.000000005"], ["0.00000001", "0.00000003"], ["0.0000001", "0.0000001", "0.0000002"],
+               # totals a hair off a round number (probabilities that do not quite add up to 1 / 100), with a zero or tiny last group
+               ["0.5", "0.49999999901", "0"], ["0.5", "0.4999999995", "0.000000001"], ["0.5", "0.499999999"], ["0.5", "0.500000001", "0"],
+               ["0.3", "0.3", "0.399999999", "0"], ["0.999999999", "0"], ["1.000000001", "0.000000001"], ["0.1", "0.2", "0.7", "0"],
+               ["50", "49.9999999", "0"], ["99.9999999", "0.00000005", "0"], ["0.33333333", "0.33333333", "0.33333333", "0"]):
         for via in ("direct", "dsl"):
             yield {"ws": ws, "ks": _positions(ws, [1, GRID // 2, GRID - 2]), "via": via}
 
